@@ -268,6 +268,7 @@ func runC05(c *Ctx) {
 		c.Unk("C05.S5-decode-preserves-signed-fields", "ingest/schema.UnwrapAdvertisement", token.NoPos, "not found")
 	}
 	c.Floor("C05.S5-decode-preserves-signed-fields", 1)
+	decodedHandedOnAsDecoded(c, "C05.S5-decoded-handed-on")
 
 	// ---- S3 verification gates --------------------------------------------------------------------
 	c05Verify(c, verify, adPay, epPay)
